@@ -124,6 +124,9 @@ def gen_file(rng, pn=""):
     parts.append(hdr)
     if "import-delete-middle" in pns:
         parts.append("import \"fmt\" // fmt-trailing\n\n// about os\nimport \"os\"\n\n// doc strings\nimport \"strings\" // strings-trailing\n\nvar _ = fmt.Sprint(strings.ToUpper(\"x\"))\n")
+    elif rng.random() < 0.1 and not first_special and not any(x.startswith("import-") for x in pns):
+        # one import in parentheses, with comments of every kind inside and after them
+        parts.append("// import doc\nimport (\n\t// about fmt\n\t\"fmt\" // fmt-trailing\n\t// after fmt\n) // after import\n\nvar _ = fmt.Sprint()\n")
     elif rng.random() < 0.12 and not first_special and not any(x.startswith("import-") for x in pns):
         # several import declarations with comments of their own
         parts.append("import \"fmt\" // fmt-trailing\n\n// doc strings\nimport \"strings\" // strings-trailing\n\nvar _ = fmt.Sprint(strings.ToUpper(\"x\"))\n")
